@@ -546,6 +546,24 @@ impl Suite for Capture {
             rich_values: idx % 4 == 0,
         };
         let mut prog = program::gen_program(rng, &gcfg);
+        // nothing is tunnelled here, so non-finite floats and signed zeros are fair game
+        for op in &mut prog.ops {
+            if let POp::New { vals, .. } | POp::Rec { vals, .. } | POp::Evt { vals, .. } = op {
+                for (_, tok) in vals.iter_mut() {
+                    let is_float = tok.starts_with("f64:") || tok.starts_with("f32:");
+                    if (is_float && rng.chance(1, 3)) || (tok != "empty" && rng.chance(1, 25)) {
+                        *tok = match rng.below(6) {
+                            0 => "f64:7ff8000000000000".into(),
+                            1 => "f64:7ff0000000000000".into(),
+                            2 => "f64:fff0000000000000".into(),
+                            3 => "f64:8000000000000000".into(),
+                            4 => "f32:7f800000".into(),
+                            _ => "f32:ffc00000".into(),
+                        };
+                    }
+                }
+            }
+        }
         let mut lines = vec![];
         let n_layers = if focus == "C16" { rng.range(1, 3) } else if rng.chance(1, 4) { 2 } else { 1 };
         lines.push(format!("layers {n_layers}"));
